@@ -108,6 +108,18 @@ proof fn lemma_prod_push(vs: Seq<isize>, x: isize, rho: spec_fn(isize) -> nat)
 }
 
 
+/// structural recogniser of constant expressions (what `Expr::constant` computes); unit
+/// u10_optloop uses its uninterpreted twin `s_constant`
+pub open spec fn spec_constant<C: CellType>(e: &Expr<C>) -> Option<C> {
+    if e.parts@.len() == 0 {
+        Some(C::ZERO)
+    } else if e.parts@.len() == 1 && e.parts@[0].vars@.len() == 0 {
+        Some(e.parts@[0].coef)
+    } else {
+        None
+    }
+}
+
 /// the same, over the mathematical integers of the ring (what the property calls "the value")
 pub open spec fn eval_nat<C: CellType>(e: &Expr<C>, rho: spec_fn(isize) -> nat) -> nat {
     (eval(e, rho)) as nat
